@@ -45,6 +45,14 @@ def step (_ : Unit) (ws : List String) : Unit × String :=
   | ["cid", x] => ((), toString (compliantID x.toNat!))
   | ["cparams", k, d, sn, sd, cap] => ((), if coverParamsOk k.toNat! d.toNat! sn.toInt! sd.toInt! cap.toNat! then "1" else "0")
   | ["fparams", k, d, sn, sd, cap, f, a] => ((), if fastCoverParamsOk k.toNat! d.toNat! sn.toInt! sd.toInt! cap.toNat! f.toNat! a.toNat! then "1" else "0")
+  | ["epochs", cap, n, k, p] =>
+    match computeEpochs cap.toNat! n.toNat! k.toNat! p.toNat! with
+    | some (a, b) => ((), s!"{a} {b}")
+    | none => ((), "undefined")
+  | ["ctxinit", total, t, nt, ns, d] =>
+    match ctxInit total.toNat! t.toNat! nt.toNat! ns.toNat! d.toNat! with
+    | some n => ((), s!"ok {n}")
+    | none => ((), "err")
   | _ => ((), "bad-op")
 
 def main : IO Unit := do
